@@ -90,10 +90,10 @@ class Repair:
             setattr(self.classes[cname], p, v)
 
 
-def show(app):
+def show(app, args=True):
     rq = app.request
     try:
-        return (rq.path, rq.query_string, rq.headers.get('X-M'), rq.get_cookie('c'), rq.method, tuple(sorted((rq.url_args or {}).items())), rq.url)
+        return (rq.path, rq.query_string, rq.headers.get('X-M'), rq.get_cookie('c'), rq.method, tuple(sorted((rq.url_args or {}).items())) if args else None, rq.url)
     except Exception as e:  # noqa
         return ('raised', type(e).__name__, str(e)[:80])
 
@@ -151,7 +151,7 @@ class World:
         D.error_handlers.pop(413, None)
         self.apps = {'D': D}
         for n in ('A', 'B'):
-            self.apps[n] = ombott.Ombott({'max_body_size': 64})
+            self.apps[n] = ombott.Ombott({'max_body_size': 64, 'debug': n == 'A'})     # A runs in debug mode, B and D do not
         for n, app in self.apps.items():
             self.install(n, app)
 
@@ -191,8 +191,23 @@ class World:
         def on_413(err):
             # what this application's response object shows while its own error is rendered
             W.reads.append((n, 'err413', ('headers', tuple(sorted(dict(app.response.headers).items())), app.response.status_code, app.request.query_string)))
+            # ... and the error object its handler is given
+            W.reads.append((n, 'err413-object', (err.status_line, err.traceback, repr(err.exception), tuple(sorted(dict(err.headers).items())))))
             return app.default_error_handler(err)
         app.error(413)(on_413)
+
+        # hooks of this application only: each records what its own application shows while it runs
+        def before():
+            W.reads.append((n, 'before-hook', show(app, args=False)))
+
+        def after():
+            W.reads.append((n, 'after-hook', show(app, args=False)))
+        for name, fn, attr in (('before_request', before, '_verif_before'), ('after_request', after, '_verif_after')):
+            old = getattr(app, attr, None)      # the default application outlives a World
+            if old is not None:
+                app.remove_hook(name, old)
+            app.add_hook(name, fn)
+            setattr(app, attr, fn)
 
     def reset(self):
         self.reads = []
@@ -261,9 +276,14 @@ def run_scenario(W, steps):
             nobs += 1
             devs.extend(check_big(app_name, i, r, as_json))
             m = f'{app_name}{i}'
+            qs = 'm=' + m * (1 + i % 3)
             for who, when, val in W.reads:
                 nobs += 1
-                exp = ('headers', (), 413, 'm=' + m * (1 + i % 3))
+                exp = ('headers', (), 413, qs)
+                if when == 'err413-object':
+                    exp = ('413 Request Entity Too Large', None, 'None', ())
+                elif when.endswith('-hook'):
+                    exp = ('/up', qs, m, None, 'POST', None, f'http://{m}.example/up?{qs}')
                 if who != app_name or val != exp:
                     devs.append(('read', who, when, val, exp))
             if not any(when == 'err413' for _, when, _ in W.reads) and r.code == 413:
@@ -291,13 +311,18 @@ def run_scenario(W, steps):
                 sc[s['target']] = dict(sc[s['target']], act='crash') if sc[s['target']].get('act') is None else sc[s['target']]
         W.script = sc
         r = call_app(W.apps[app_name], env_for(app_name, i))
-        exp_show = expected_show(app_name, i)
+        missing = {s['target'] for s in script.values() if s.get('inner') == '404'}
         for who, when, val in W.reads:
             nobs += 1
             idx = i if who == app_name else i + 50
-            e = expected_show(who, idx)
+            e = exp_read(who, idx, when, path='/missing' if who in missing and who != app_name else None)
             if val != e:
                 devs.append(('read', who, when, val, e))
+        ran = {(who, when) for who, when, _ in W.reads if when.endswith('-hook')}
+        for who in [app_name] + [tgt for tgt, _ in W.nested]:
+            for when in ('before-hook', 'after-hook'):
+                if (who, when) not in ran:
+                    devs.append(('read', who, when, 'hook of this application did not run', None))
         # final responses: the outer one and the nested ones
         checks = [(app_name, i, r)] + [(tgt, i + 50, nr) for tgt, nr in W.nested]
         for who, idx, resp in checks:
@@ -339,6 +364,13 @@ def check_response(W, who, idx, resp, sc):
     if resp.body != f'body-{who}-{m}'.encode():
         out.append(('response', who, 'body', resp.body, f'body-{who}-{m}'))
     return out
+
+
+def exp_read(who, idx, when, path=None):
+    e = expected_show(who, idx, path=path)
+    if when.endswith('-hook'):
+        e = e[:5] + (None,) + e[6:]
+    return e
 
 
 def single_unit(ctx, unit):
@@ -433,7 +465,7 @@ def threaded_unit(ctx, unit):
                             devs.extend(check_response(W, who, idx, res[t][1], {}))
                     for who, when, val in W.reads:
                         ctx.count('reads_compared')
-                        e = expected_show(who, 1 if who == a else 2)
+                        e = exp_read(who, 1 if who == a else 2, when)
                         if val != e:
                             devs.append(('read', who, when, val, e))
                     if not devs:
@@ -461,7 +493,7 @@ def threaded_unit(ctx, unit):
                             else:
                                 devs2.extend(check_response(W, who, idx, res2[t][1], {}))
                         for who, when, val in W.reads:
-                            if val != expected_show(who, 1 if who == a else 2):
+                            if val != exp_read(who, 1 if who == a else 2, when):
                                 devs2.append(('read', who, when, val, None))
                     if not devs2:
                         known_seen += 1
